@@ -3,7 +3,7 @@
   rules of value.rs.  Integers are mathematical `Int`s kept inside the i32
   range by `wrapI32` exactly where the Rust uses `wrapping_*`.
   Float arithmetic is Lean's `Float32` (IEEE single, same as Rust's f32 for
-  + - * / floor ceil); `%` and `Display` on floats are modelled, not verified.
+  + - * / floor ceil); `%` is the exact fmod on mantissas; `Display` is re-implemented.
 -/
 import Ink.InkList
 
@@ -107,11 +107,20 @@ def toI32 (f : Float32) : Int := f.toInt32.toInt
 /-- `i32 as f32` -/
 def ofI32 (i : Int) : Float32 := (Float.ofInt i).toFloat32
 
-/-- `f32 % f32` (fmod); modelled, not verified. -/
+/-- `f32 % f32` (C `fmodf`): exact remainder of the magnitudes with the sign of the dividend.
+    Computed on the integer mantissas, so no rounding is involved. -/
 def fmod (a b : Float32) : Float32 :=
-  let q := a / b
-  let t := if q < 0 then q.ceil else q.floor
-  a - t * b
+  if a.isNaN || b.isNaN || a.isInf || b == 0.0 then (0.0 : Float32) / 0.0
+  else if b.isInf || a == 0.0 then a
+  else
+    let (ma, ea, _) := decompose a.toBits
+    let (mb, eb, _) := decompose b.toBits
+    let e : Int := if ea ≤ eb then ea else eb
+    let na : Nat := ma * 2 ^ (ea - e).toNat
+    let nb : Nat := mb * 2 ^ (eb - e).toNat
+    let r : Nat := na % nb
+    let mag : Float32 := (Float32.ofNat r).scaleB e
+    if (a.toBits >>> 31) == 1 then -mag else mag
 
 def fmin (a b : Float32) : Float32 := if a.isNaN then b else if b.isNaN then a else if a < b then a else b
 def fmax (a b : Float32) : Float32 := if a.isNaN then b else if b.isNaN then a else if a > b then a else b
